@@ -141,87 +141,102 @@ def verify_function(ex, con, prop=None):
             info["unreached"] = "variant %s: generator error %s" % (variant, traceback.format_exc(limit=-5))
             info["crash"] = True
             continue
-        base = "%s::%s[%s]" % (con.file, con.qual, variant)
-        # cover: requires satisfiable
-        hint = con.cover_hint(ex, st0, a) if hasattr(con, "cover_hint") else []
-        # the cover is about the `requires` (the `assumes` are dependency facts and conservative definitions)
-        cover_pc = list(st.assume(*[t for (_, t) in reqs]).pc)
-        obligs.append(Obligation(base + "::cover:requires", cover_pc + list(hint), tm.FALSE, kind="V", prop=prop, expect="sat",
-                                 decls=ex.models.decls, sorts=ex.models.sorts,
-                                 defs=ex.models.defs_for(tm.FALSE, st0.pc),
-                                 text="precondition is satisfiable (vacuity guard)"))
-        npath = 0
-        raise_specs = con.raises(ex, st0, a)
-        for (s, tag, v) in outs:
-            if s.dead:
-                continue
-            npath += 1
-            pid = "#p%d" % npath
-            if tag in ("ok", "ret"):
-                val = v if tag == "ret" else NONE
-                for (label, t) in con.ensures(ex, st0, s, a, val):
-                    obligs.append(_ob(ex, "%s::ensures:%s%s" % (base, label, pid), s, t, prop, mterms,
-                                      "postcondition %s on a normal return" % label,
-                                      meta=dict(function=con.qual, file=con.file, variant=variant, clause=label,
-                                                kind="ensures")))
-                if con.exact_raises:
-                    for (excname, cond, _) in raise_specs:
-                        if cond is None:
-                            continue   # no closed-form condition at this level: see ensures_exc and the lemma layer
-                        obligs.append(_ob(ex, "%s::raises-exact:%s%s" % (base, excname, pid), s, tm.not_(cond), prop,
-                                          mterms, "normal return only when %s is not due" % excname,
+        n_before = len(obligs)
+        try:
+            base = "%s::%s[%s]" % (con.file, con.qual, variant)
+            # cover: requires satisfiable
+            hint = con.cover_hint(ex, st0, a) if hasattr(con, "cover_hint") else []
+            # the cover is about the `requires` (the `assumes` are dependency facts and conservative definitions)
+            cover_pc = list(st.assume(*[t for (_, t) in reqs]).pc)
+            obligs.append(Obligation(base + "::cover:requires", cover_pc + list(hint), tm.FALSE, kind="V", prop=prop, expect="sat",
+                                     decls=ex.models.decls, sorts=ex.models.sorts,
+                                     defs=ex.models.defs_for(tm.FALSE, st0.pc),
+                                     text="precondition is satisfiable (vacuity guard)"))
+            npath = 0
+            raise_specs = con.raises(ex, st0, a)
+            for (s, tag, v) in outs:
+                if s.dead:
+                    continue
+                npath += 1
+                pid = "#p%d" % npath
+                if tag in ("ok", "ret"):
+                    val = v if tag == "ret" else NONE
+                    for (label, t) in con.ensures(ex, st0, s, a, val):
+                        if t is None:
+                            # the clause cannot be stated over what the executor shows of this post-state: skipped, and said so
+                            info.setdefault("skipped_clauses", set()).add("%s[%s]::ensures:%s" % (con.qual, variant, label))
+                            continue
+                        obligs.append(_ob(ex, "%s::ensures:%s%s" % (base, label, pid), s, t, prop, mterms,
+                                          "postcondition %s on a normal return" % label,
+                                          meta=dict(function=con.qual, file=con.file, variant=variant, clause=label,
+                                                    kind="ensures")))
+                    if con.exact_raises:
+                        for (excname, cond, _) in raise_specs:
+                            if cond is None:
+                                continue   # no closed-form condition at this level: see ensures_exc and the lemma layer
+                            obligs.append(_ob(ex, "%s::raises-exact:%s%s" % (base, excname, pid), s, tm.not_(cond), prop,
+                                              mterms, "normal return only when %s is not due" % excname,
+                                              meta=dict(function=con.qual, file=con.file, variant=variant,
+                                                        clause="raises-exact:" + excname, kind="raises")))
+                elif tag == "raise":
+                    mro = s.get(v, "__mro__") or ["?"]
+                    matched = [(n, c) for (n, c, _) in raise_specs if n in mro]
+                    if not matched:
+                        obligs.append(_ob(ex, "%s::raises:unlisted:%s%s" % (base, mro[0], pid), s, tm.FALSE, prop, mterms,
+                                          "an exception the contract does not list (%s) is unreachable" % mro[0],
                                           meta=dict(function=con.qual, file=con.file, variant=variant,
-                                                    clause="raises-exact:" + excname, kind="raises")))
-            elif tag == "raise":
-                mro = s.get(v, "__mro__") or ["?"]
-                matched = [(n, c) for (n, c, _) in raise_specs if n in mro]
-                if not matched:
-                    obligs.append(_ob(ex, "%s::raises:unlisted:%s%s" % (base, mro[0], pid), s, tm.FALSE, prop, mterms,
-                                      "an exception the contract does not list (%s) is unreachable" % mro[0],
-                                      meta=dict(function=con.qual, file=con.file, variant=variant,
-                                                clause="raises:unlisted:" + mro[0], kind="raises")))
-                elif any(c is None for (_, c) in matched):
-                    pass
+                                                    clause="raises:unlisted:" + mro[0], kind="raises")))
+                    elif any(c is None for (_, c) in matched):
+                        pass
+                    else:
+                        goal = tm.or_(*[c for (_, c) in matched])
+                        obligs.append(_ob(ex, "%s::raises:%s%s" % (base, mro[0], pid), s, goal, prop, mterms,
+                                          "%s is raised only under its stated condition" % mro[0],
+                                          meta=dict(function=con.qual, file=con.file, variant=variant,
+                                                    clause="raises:" + mro[0], kind="raises")))
+                    for (label, t) in con.ensures_exc(ex, st0, s, a, v) if hasattr(con, "ensures_exc") else []:
+                        obligs.append(_ob(ex, "%s::exc-frame:%s%s" % (base, label, pid), s, t, prop, mterms,
+                                          "frame condition %s on an exceptional exit" % label,
+                                          meta=dict(function=con.qual, file=con.file, variant=variant, clause=label,
+                                                    kind="exc-frame")))
                 else:
-                    goal = tm.or_(*[c for (_, c) in matched])
-                    obligs.append(_ob(ex, "%s::raises:%s%s" % (base, mro[0], pid), s, goal, prop, mterms,
-                                      "%s is raised only under its stated condition" % mro[0],
-                                      meta=dict(function=con.qual, file=con.file, variant=variant,
-                                                clause="raises:" + mro[0], kind="raises")))
-                for (label, t) in con.ensures_exc(ex, st0, s, a, v) if hasattr(con, "ensures_exc") else []:
-                    obligs.append(_ob(ex, "%s::exc-frame:%s%s" % (base, label, pid), s, t, prop, mterms,
-                                      "frame condition %s on an exceptional exit" % label,
-                                      meta=dict(function=con.qual, file=con.file, variant=variant, clause=label,
-                                                kind="exc-frame")))
-            else:
-                info["unreached"] = "variant %s: stray %s" % (variant, tag)
-        seen_names = {}
-        for ob in ex.obligs:
-            k_ = seen_names.get(ob.name, 0)
-            seen_names[ob.name] = k_ + 1
-            ob.name = base + "::" + ob.name + ("#%d" % k_ if k_ else "")
-            ob.prop = prop
-            if not ob.model_terms:
-                ob.model_terms = dict(mterms)
-            ob.meta.setdefault("function", con.qual)
-            ob.meta.setdefault("file", con.file)
-            ob.meta.setdefault("variant", variant)
-            obligs.append(ob)
-        if hasattr(con, "aux_lemmas"):
-            aux = con.aux_lemmas(ex)
-            have = {o.name for o in obligs}
-            for l_ in aux:
-                l_.name = "%s::%s::aux:%s" % (con.file, con.qual, l_.name)
-                if l_.name not in have:
-                    l_.prop = prop
-                    obligs.append(l_)
-            for ob in obligs:
-                if ob.meta.get("needs_aux"):
-                    ob.meta.setdefault("uses", []).extend(l_.name for l_ in aux)
-        info["paths"] += npath
-        info["variants"].append(variant)
-        if npath == 0:
-            info["unreached"] = "variant %s: no feasible path" % variant
+                    info["unreached"] = "variant %s: stray %s" % (variant, tag)
+            seen_names = {}
+            for ob in ex.obligs:
+                k_ = seen_names.get(ob.name, 0)
+                seen_names[ob.name] = k_ + 1
+                ob.name = base + "::" + ob.name + ("#%d" % k_ if k_ else "")
+                ob.prop = prop
+                if not ob.model_terms:
+                    ob.model_terms = dict(mterms)
+                ob.meta.setdefault("function", con.qual)
+                ob.meta.setdefault("file", con.file)
+                ob.meta.setdefault("variant", variant)
+                obligs.append(ob)
+            if hasattr(con, "aux_lemmas"):
+                aux = con.aux_lemmas(ex)
+                have = {o.name for o in obligs}
+                for l_ in aux:
+                    l_.name = "%s::%s::aux:%s" % (con.file, con.qual, l_.name)
+                    if l_.name not in have:
+                        l_.prop = prop
+                        obligs.append(l_)
+                for ob in obligs:
+                    if ob.meta.get("needs_aux"):
+                        ob.meta.setdefault("uses", []).extend(l_.name for l_ in aux)
+            info["paths"] += npath
+            info["variants"].append(variant)
+            if npath == 0:
+                info["unreached"] = "variant %s: no feasible path" % variant
+        except Unsupported as e:
+            # a clause of the contract cannot be stated over what the executor shows of the post-state (e.g. a feature table
+            # that is no longer an append of one feature): nothing is claimed about this variant
+            del obligs[n_before:]
+            why = info.setdefault("_why", {})
+            why.setdefault(str(e), []).append(variant)
+            info["unreached"] = "; ".join("variant%s %s: %s" % ("s" if len(vs) > 1 else "", ", ".join(vs[:4]) + (
+                " ... (%d)" % len(vs) if len(vs) > 4 else ""), r_) for r_, vs in why.items())
+            continue
     return obligs, info
 
 
